@@ -13,15 +13,40 @@ def _loc(f, node):
     return '%s:%d' % (f.mod.relpath, getattr(node, 'lineno', f.node.lineno))
 
 
-def eval_bool(e, val):
+def eval_bool(e, val, depth=0):
     if isinstance(e, ast.BoolOp):
-        vs = [eval_bool(v, val) for v in e.values]
+        vs = [eval_bool(v, val, depth) for v in e.values]
         return all(vs) if isinstance(e.op, ast.And) else any(vs)
     if isinstance(e, ast.UnaryOp) and isinstance(e.op, ast.Not):
-        return not eval_bool(e.operand, val)
+        return not eval_bool(e.operand, val, depth)
     if isinstance(e, ast.Constant) and isinstance(e.value, bool):
         return e.value
-    return val(norm(e))
+    if isinstance(e, ast.IfExp):
+        return eval_bool(e.body, val, depth) if eval_bool(e.test, val, depth) else eval_bool(e.orelse, val, depth)
+    try:
+        return val(norm(e))
+    except Incomplete:
+        # a local flag computed from known atoms: inline its single binding
+        res = getattr(val, 'resolver', None)
+        if isinstance(e, ast.Name) and res is not None and depth < 6:
+            b = res(e.id)
+            if b is not None:
+                return eval_bool(b, val, depth + 1)
+        raise
+
+
+def single_binding_resolver(fnode):
+    """name -> value expression for locals of fnode that are bound by exactly one plain assignment (not in a loop header)"""
+    binds = {}
+    for n in ast.walk(fnode):
+        if isinstance(n, ast.Assign) and len(n.targets) == 1 and isinstance(n.targets[0], ast.Name):
+            binds.setdefault(n.targets[0].id, []).append(n.value)
+        elif isinstance(n, (ast.AugAssign, ast.For, ast.comprehension)):
+            t = n.target
+            for x in ast.walk(t):
+                if isinstance(x, ast.Name):
+                    binds.setdefault(x.id, []).extend([None, None])
+    return lambda name: binds[name][0] if name in binds and len(binds[name]) == 1 else None
 
 
 def executes_when(cfg, stmt, val):
@@ -32,13 +57,14 @@ def executes_when(cfg, stmt, val):
     return True
 
 
-def atom_valuation(mapping, assignment):
+def atom_valuation(mapping, assignment, resolver=None):
     """mapping: normalised text -> (atom, polarity); assignment: atom -> bool"""
     def val(text):
         if text not in mapping:
             raise Incomplete('condition atom `%s` is not understood by this rule' % text)
         a, pol = mapping[text]
         return assignment[a] if pol else not assignment[a]
+    val.resolver = resolver
     return val
 
 
@@ -399,19 +425,29 @@ def check_buffer_discipline(model, R, P, B):
     cfg = CFG(d) if d is not f.node else B.cfg
     st = _stmt_in(d, z)
     mapping = {'%s.requires_grad' % c: ('R', True), '%s._grad is None' % c: ('N', True), '%s._grad is not None' % c: ('N', False),
-               '%s.is_leaf' % c: ('L', True), '%s.has_grad()' % c: ('N', False), '%s.grad_fn is None' % c: ('L', True), '%s.grad_fn is not None' % c: ('L', False)}
+               '%s.is_leaf' % c: ('L', True), '%s.has_grad()' % c: ('N', False), '%s.grad_fn is None' % c: ('L', True), '%s.grad_fn is not None' % c: ('L', False),
+               '%s._retain_grad' % c: ('K', True), 'retain_grads__': ('G', True)}
+    resolver = single_binding_resolver(d)
     # ignore traversal-structure conditions (visited test, expanded flag, while stack)
-    def relevant(e):
-        return c in names_in(e) or any(c == norm(n) for n in ast.walk(e) if isinstance(n, ast.Attribute))
+    def relevant(e, depth=0):
+        if c in names_in(e) or any(c == norm(n) for n in ast.walk(e) if isinstance(n, ast.Attribute)):
+            return True
+        if depth < 4:
+            for n in ast.walk(e):
+                if isinstance(n, ast.Name):
+                    b = resolver(n.id)
+                    if b is not None and relevant(b, depth + 1):
+                        return True
+        return False
     conds = [(e, p) for e, p in cfg.conditions(st) if relevant(e)]
     bad_leaf, bad_nonleaf = [], []
     try:
-        for Rq, N, L in itertools.product((False, True), repeat=3):
-            val = atom_valuation(mapping, dict(R=Rq, N=N, L=L))
+        for Rq, N, L, K, G in itertools.product((False, True), repeat=5):
+            val = atom_valuation(mapping, dict(R=Rq, N=N, L=L, K=K, G=G), resolver)
             got = all(eval_bool(e, val) == p for e, p in conds)
             want = Rq and (N or not L)
             if got != want:
-                (bad_leaf if L else bad_nonleaf).append(dict(requires_grad=Rq, grad_is_None=N, is_leaf=L, zeroed=got))
+                (bad_leaf if L else bad_nonleaf).append(dict(requires_grad=Rq, grad_is_None=N, is_leaf=L, retain_grad=K, retain_grads=G, zeroed=got))
     except Incomplete as e:
         R.incomplete_at(P + '.LEAF-ACCUMULATE', f.qualname, str(e))
         return
